@@ -16,6 +16,7 @@ package db
 // B-tree node objects are immutable after construction (checked by the frame scan).
 //@ immutable db.tableLeaf.cells db.tableInterior.cells db.tableInterior.rightmost
 //@ immutable db.indexLeaf.cells db.indexInterior.cells db.indexInterior.rightmost
+//@ immutable db.Table.db db.Table.root db.Table.sql db.Index.db db.Index.root db.Index.sql
 
 // pg(n): page number a node object was decoded from. p_lo(p), p_hi(p): positions, in the in-order
 // enumeration of the tree page p belongs to, of the first item of p's subtree and of the first item
@@ -62,11 +63,11 @@ package db
 // Leaf-level callback of a table walk: called with item `pos` of the current tree; one delivery.
 //@ functype db.iterCB
 //@   props C01 C04 C12 C17
-//@   opt params=rowid pl
+//@   opt params=cbrowid cbpl
 //@   opt results=done err
 //@   modifies * pos halt
 //@   requires [nohalt] !halt
-//@   requires [item] rowid == tb_rowid(cur_tree, pos) && pl == tb_payload(cur_tree, pos)
+//@   requires [item] cbrowid == tb_rowid(cur_tree, pos) && cbpl == tb_payload(cur_tree, pos) && wf_payload(cbpl)
 //@   ensures err == nil ==> pos == old(pos) + 1 && (halt <==> done)
 //@   ensures err == nil && searching ==> done
 
@@ -92,6 +93,7 @@ package db
 //@   modifies * pos halt
 //@   requires [nonnil] self != nil && cb != nil
 //@   requires [nohalt] !halt && !searching
+//@   requires [nodewf] tleaf_wf(self)
 //@   requires [cursor] tree_of(pg(self)) == cur_tree && pos == p_lo(pg(self))
 //@   ensures [all] err == nil && !done ==> pos == p_hi(pg(self)) && !halt
 //@   ensures [stopped] err == nil && done ==> halt
@@ -130,7 +132,7 @@ package db
 //@   props C01 C04 C12
 //@   trusted seam: page cache + decode (see C08, C14)
 //@   modifies *
-//@   trusted-ensures err == nil ==> r0 != nil && iref(r0) != nil && pg(iref(r0)) == page
+//@   trusted-ensures err == nil ==> r0 != nil && iref(r0) != nil && pg(iref(r0)) == page && tleaf_wf(iref(r0))
 
 // ---------------------------------------------------------------------------------------
 // Rowid search (C04). Ghost: searching = the walk in progress is a search for rowid skey and its
@@ -162,6 +164,7 @@ package db
 //@   modifies * pos halt
 //@   requires [nonnil] self != nil && cb != nil
 //@   requires [mode] searching && rowid == skey && !halt
+//@   requires [nodewf] tleaf_wf(self)
 //@   requires [cursor] tree_of(pg(self)) == cur_tree && ule(p_lo(pg(self)), TFIRST()) && ule(TFIRST(), p_hi(pg(self))) && pos == TFIRST()
 //@   ensures [found] err == nil && ult(TFIRST(), p_hi(pg(self))) ==> done && halt && pos == old(pos) + 1
 //@   ensures [absent] err == nil && TFIRST() == p_hi(pg(self)) ==> !done && !halt && pos == old(pos)
@@ -201,6 +204,11 @@ package db
 //@ smt tokens
 //@ (declare-fun fullpl (Slice S_db_cellPayload) Bool)
 //@ (declare-fun parsed (Slice Slice) Bool)
+//@ (define-fun tleaf_wf ((X Int)) Bool (forall ((a (_ BitVec 64))) (! (=> (and (bvule (s_off (F_db_tableLeaf_cells X)) a) (bvult a (bvadd (s_off (F_db_tableLeaf_cells X)) (s_len (F_db_tableLeaf_cells X))))) (wf_payload (S_db_tableLeafCell_1_payload (select (FE_db_tableLeaf_cells X) a)))) :pattern ((select (FE_db_tableLeaf_cells X) a)))))
+//@ (define-fun ileaf_wf ((X Int)) Bool (forall ((a (_ BitVec 64))) (! (=> (and (bvule (s_off (F_db_indexLeaf_cells X)) a) (bvult a (bvadd (s_off (F_db_indexLeaf_cells X)) (s_len (F_db_indexLeaf_cells X))))) (wf_payload (select (FE_db_indexLeaf_cells X) a))) :pattern ((select (FE_db_indexLeaf_cells X) a)))))
+//@ (define-fun iint_wf ((X Int)) Bool (forall ((a (_ BitVec 64))) (! (=> (and (bvule (s_off (F_db_indexInterior_cells X)) a) (bvult a (bvadd (s_off (F_db_indexInterior_cells X)) (s_len (F_db_indexInterior_cells X))))) (wf_payload (S_db_indexInteriorCell_1_payload (select (FE_db_indexInterior_cells X) a)))) :pattern ((select (FE_db_indexInterior_cells X) a)))))
+//@ (declare-fun recof (Slice S_db_cellPayload) Bool)
+//@ (assert (forall ((rec Slice) (c Slice) (pl S_db_cellPayload)) (! (=> (and (fullpl c pl) (parsed rec c)) (recof rec pl)) :pattern ((fullpl c pl) (parsed rec c)))))
 
 //@ func (*db.Database).page
 //@   props C01 C05 C12
@@ -218,3 +226,59 @@ package db
 //@   loop 1 invariant 0 <= len(to) && len(to) <= cap(to) && cap(to) <= 1099512676352 && ule(off(to), 4611686018427387904)
 //@   loop 1 invariant pl.Overflow == 0 ==> overflow == 0 && to == pl.Payload
 //@   loop 1 decreases pl.Length - len(to)
+
+// User-level callback of Table.Scan: the rowid and the decoded record of item `pos`.
+//@ functype db.TableScanCB
+//@   props C01 C17
+//@   opt params=rowid rec
+//@   opt results=done
+//@   modifies * pos halt
+//@   requires [nohalt] !halt
+//@   requires [item] rowid == tb_rowid(cur_tree, pos) && recof(rec, tb_payload(cur_tree, pos))
+//@   ensures pos == old(pos) + 1 && (halt <==> done)
+
+//@ func (*db.Table).Scan
+//@   props C01 C12 C17
+//@   uses table_tree
+//@   modifies *
+//@   requires t != nil && cb != nil
+//@   ghost-entry cur_tree = tree_of(t.root)
+//@   ghost-entry pos = p_lo(t.root)
+//@   ghost-entry halt = false
+//@   ghost-entry searching = false
+//@   ensures-before-exit [all] r0 == nil && !halt ==> pos == p_hi(t.root)
+//@   ghost-exit cur_tree = old(cur_tree)
+//@   ghost-exit pos = old(pos)
+//@   ghost-exit halt = old(halt)
+//@   ghost-exit searching = old(searching)
+
+//@ func (*db.Table).Scan$1
+//@   implements functype db.iterCB
+//@   free-requires cb != nil && t != nil && !searching
+
+// Rowid lookup. The consumer closure counts the delivery itself (it is the end of the chain).
+//@ func (*db.Table).Rowid
+//@   props C04 C12
+//@   uses table_tree table_sorted
+//@   modifies *
+//@   requires t != nil && tree_of(t.root) == t.root
+//@   ghost-entry cur_tree = t.root
+//@   ghost-entry searching = true
+//@   ghost-entry skey = rowid
+//@   ghost-entry pos = tfirst(t.root, rowid)
+//@   ghost-entry halt = false
+//@   ensures [absent] err == nil && (tfirst(t.root, rowid) == p_hi(t.root) || tb_rowid(t.root, tfirst(t.root, rowid)) != rowid) ==> r0 == nil
+//@   ensures [found] err == nil && ult(tfirst(t.root, rowid), p_hi(t.root)) && tb_rowid(t.root, tfirst(t.root, rowid)) == rowid ==> recof(r0, tb_payload(t.root, tfirst(t.root, rowid)))
+//@   ghost-exit cur_tree = old(cur_tree)
+//@   ghost-exit pos = old(pos)
+//@   ghost-exit halt = old(halt)
+//@   ghost-exit searching = old(searching)
+//@   ghost-exit skey = old(skey)
+
+//@ func (*db.Table).Rowid$1
+//@   implements functype db.iterCB
+//@   free-requires rowid == skey
+//@   closure-invariant recPl != nil ==> halt && tb_rowid(cur_tree, pos - 1) == rowid && load(recPl) == tb_payload(cur_tree, pos - 1) && wf_payload(load(recPl))
+//@   closure-invariant halt && tb_rowid(cur_tree, pos - 1) == rowid ==> recPl != nil
+//@   ghost-exit pos = old(pos) + 1
+//@   ghost-exit halt = true
